@@ -38,7 +38,7 @@ def diff_penalty(m, order):
     return D.T @ D
 
 
-def build_tau2_model(rng, how):
+def build_tau2_model(rng, how, idx=0):
     """returns (model, group, desc)"""
     import jax.numpy as jnp
     import liesel.model as lsl
@@ -56,7 +56,9 @@ def build_tau2_model(rng, how):
         K = A @ A.T / m + 0.3 * np.eye(m)
     else:
         K = diff_penalty(m, 1 if style == "rw1" else 2)
-    K = K.astype(np.float32)
+    # the overall scale of the penalty is the user's business (1e-6 * D'D is the same smoothness prior with tau2 rescaled)
+    pen_scale = [1.0, 1e-6, 1.0, 1e-4, 1e3][idx % 5]
+    K = (K * pen_scale).astype(np.float32)
     r = int(np.linalg.matrix_rank(K))
     a = float(np.round(np.exp(rng.uniform(np.log(0.05), np.log(20.0))), 3))
     b = float(np.round(np.exp(rng.uniform(np.log(0.005), np.log(5.0))), 4))
@@ -71,7 +73,7 @@ def build_tau2_model(rng, how):
     else:
         beta = rng.normal(size=m)
     beta = beta.astype(np.float32)
-    desc = {"m": m, "penalty": style, "rank": r, "a": a, "b": b, "beta_style": bstyle,
+    desc = {"m": m, "penalty": style, "penalty_scale": pen_scale, "rank": r, "a": a, "b": b, "beta_style": bstyle,
             "bKb": float(beta.astype(np.float64) @ K.astype(np.float64) @ beta.astype(np.float64)), "how": how}
     if how == "distreg":
         import tensorflow_probability.substrates.jax.bijectors as tfb
@@ -131,7 +133,7 @@ def case_tau2(case, res):
 
     stage2 = "stage2_of" in case
     rng = rng_for(case["seed"], "c13-tau2", case["idx"])       # model is the same in both stages
-    model, g, desc = build_tau2_model(rng, case["how"])
+    model, g, desc = build_tau2_model(rng, case["how"], case["idx"])
     iface = gs.LieselInterface(model)
     kernel = lsl.tau2_gibbs_kernel(g)
     kernel.set_model(iface)
@@ -212,9 +214,18 @@ def case_discrete(case, res):
         if rng.random() < 0.3 and K >= 3:
             pr[int(rng.integers(K))] = 0.0          # an impossible outcome (log-probability -inf)
             pr = (pr / pr.sum()).astype(np.float32)
+        init = jnp.asarray(outcomes[0])
+        if case["idx"] % 2 == 0:
+            # a fractional grid (0, .25, .5, ...); the current value may be an integer-typed member of it (Var(0, ...))
+            outcomes = (outcomes * 0.25).astype(np.float32)
+            whole = [o for o in outcomes if float(o).is_integer()]
+            init = jnp.asarray(outcomes[0])
+            if whole:
+                init = int(whole[0]) if rng.random() < 0.5 else jnp.asarray(int(whole[0]), jnp.int32)
+                res.ev("integer_typed_current_value_on_fractional_grid")
         grid = lsl.Var(jnp.asarray(outcomes), name="grid")
         prior = lsl.Dist(tfd.FiniteDiscrete, outcomes=grid, probs=jnp.asarray(pr))
-        kv = lsl.Var(jnp.asarray(outcomes[0]), prior, name="k")
+        kv = lsl.Var(init, prior, name="k")
         outs = None
     else:
         p1 = float(np.round(rng.uniform(0.02, 0.98), 3)) if rng.random() < 0.8 else float(rng.choice([0.0, 1.0]))
